@@ -73,6 +73,7 @@ type Interp struct {
 	invMemo   map[string]*Term
 	bigVals   map[*Obj]*Term
 	bigField  map[*Obj]*Term // big.Int objects that carry a field value (Element.BigInt / SetBigInt)
+	memoTerms map[string][]*Term // deterministic opaque functions (canonical encodings, SetBytes): same argument terms, same result
 	codecStore [][]Val
 	noSummary bool  // set while running a harness whose name says it validates a summary
 	curFn    []string
